@@ -92,7 +92,7 @@ class C14(Profile):
     probes = ['named_version_differs_from_detected', 'nonrfc_id_rejected', 'uuidv1_id', 'accepted_object_checked',
               'rejected_by_both', 'dict_returned', 'roundtrip_checked', 'fs_entry', 'memory_entry', 'load_entry',
               'nonrfc_ref_rejected', 'fs_layout_flat', 'fs_layout_flat_in_versioned_dir', 'fs_layout_versioned',
-              'store_already_held_this_version', 'history_of_mixed_spec_versions_on_disk']
+              'store_already_held_this_version', 'history_of_mixed_spec_versions_on_disk', 'bundlified_file_read_with_named_version']
     rule = ('plans: 20-60 ops, each = (entry point among parse_observable, Memory{Store,Source,Sink} construction/add/load, '
             'FileSystem{Sink,Store}.add, FileSystem{Source,Store}.get/all_versions/query, Environment.add) x version in {None,2.0,2.1} x '
             'allow_custom x one of 23 inputs that separate the versions (differing required properties, spec_version present/absent, '
@@ -113,6 +113,8 @@ class C14(Profile):
             op = {'op': 'entry', 'ep': ep, 'v': rng.choice([None, '2.0', '2.1', '2.0', '2.1']), 'a': rng.random() < 0.5,
                   'inp': key, 'idk': rng.choice(ID_KINDS), 'refk': rng.choice(ID_KINDS + ['v4', 'v4', 'v4']), 'n': index * 100 + n,
                   'ls_key': rng.randrange(100)}
+            if ep.startswith('fs_') and 'add' not in ep and ep != 'fs_mixed_versions' and rng.random() < 0.3:
+                op['bundlified'] = True
             if ep in PRELOADABLE and rng.random() < 0.4:
                 # history: the store already holds this (id, modified) - put there under another version / spelling
                 op['pre'] = {'v': rng.choice([None, '2.0', '2.1']), 'respell': rng.random() < 0.3}
@@ -231,6 +233,7 @@ class C14(Profile):
         root = self.fresh_dir(sw, i, 'fsr')
         relroot = os.path.relpath(root, sw.disk.root)
         layout = ['flat', 'flat_in_versioned_dir', 'versioned'][i % 3]
+        wrap = bool(self._cur_op.get('bundlified'))
         sid = d.get('id', 'noid')
         if not sid.split('--')[-1].replace('-', '').isalnum() or 'not-a-uuid' in sid:
             layout = 'flat'      # the one-directory-per-id layout is only recognised for well-formed ids
@@ -238,7 +241,14 @@ class C14(Profile):
             rel = os.path.join(relroot, d['type'], sid, '20170101123456000.json')
         else:
             rel = os.path.join(relroot, d['type'], sid + '.json')
-        sw.disk.raw_write(rel, json.dumps(d).encode())
+        stored = d
+        if wrap:
+            # what a sink with bundlify=True leaves on disk: the object wrapped in a bundle of its own spec version
+            stored = {'type': 'bundle', 'id': C.mkid('bundle', i + 4000), 'objects': [d]}
+            if 'spec_version' not in d:
+                stored['spec_version'] = '2.0'
+            sw.world.probe('bundlified_file_read_with_named_version')
+        sw.disk.raw_write(rel, json.dumps(stored).encode())
         if layout == 'flat_in_versioned_dir':
             # a sibling object in the one-directory-per-id layout makes the type directory "versioned"; the flat file is
             # then found through the backward-compatibility search
@@ -316,6 +326,14 @@ class C14(Profile):
         if ep.startswith('fs_') and op['idk'] == 'garbage':
             pass
         ref = None if is_sco_ep else call(s.parse, C._copy(d), allow_custom=a, version=v)
+        self._cur_op = op
+        if op.get('bundlified') and ep.startswith('fs_') and 'add' not in ep:
+            # the stored content IS a bundle: the reference is the direct parse of that bundle under the same switches, its member
+            wrapped = {'type': 'bundle', 'id': C.mkid('bundle', i + 4000), 'objects': [C._copy(d)]}
+            if 'spec_version' not in d:
+                wrapped['spec_version'] = '2.0'
+            rb = call(s.parse, wrapped, allow_custom=a, version=v)
+            ref = rb if not rb.ok else call(lambda: rb.value['objects'][0])
         out, objs = self.run_entry(sw, ep, d, a, v, i, op.get('pre'))
         detected = '2.1' if ('spec_version' in d or (d['type'] in ('ipv4-addr',) and 'id' in d)) else '2.0'
         if v and v != detected:
@@ -359,7 +377,9 @@ class C14(Profile):
         if isinstance(got, dict):
             world.probe('dict_returned')
         # (1) independent: class belongs to the named version
-        if v and not isinstance(got, dict) and not isinstance(got, self.bases[v]):
+        if v and not isinstance(got, dict) and not isinstance(got, self.bases[v]) and not (op.get('bundlified') and ep.startswith('fs_') and 'add' not in ep):
+            # (in a bundlified file the named version governs the bundle wrapper; its member is recognised on its own, as the
+            # direct parser does for bundle members - the differential oracle below covers it)
             raise Violation('version-honoured', 'C14.class/%s/named-%s' % (ep, v),
                             dict(input=d, got=type(got).__module__ + '.' + type(got).__name__, allow_custom=a))
         world.probe('accepted_object_checked')
